@@ -237,6 +237,14 @@ func c12DecoratorFinal(w *World, ds *DSetup, pokeStep int) *Violation {
 		}
 		for id := range desired {
 			if !owned[id] {
+				if occ := w.Store.Get(id.res, id.ns, id.name); occ != nil {
+					// the name is taken by an object this target does not control (e.g. an
+					// attachment of an earlier target of the same name that was orphaned): the
+					// decorator neither adopts nor overwrites it, and convergence is promised
+					// only when no foreign object occupies a desired name
+					w.Probe("c12:desired-name-occupied-by-foreign-object")
+					continue
+				}
 				return &Violation{Prop: "C12", Class: "attachments-differ-from-desired", Sig: ds.Sig, Detail: fmt.Sprintf("target %s/%s: desired attachment %s missing at quiescence", p.NS, p.Name, id)}
 			}
 		}
